@@ -144,6 +144,36 @@ pub fn records() -> Vec<Rec> {
     }
 }
 
+// ------------------------------------------------------------------ gate: one deterministic context switch
+// Thread A (GATE_TID) is held right before its (GATE_AT+1)-th parent-side system call until thread B,
+// released at that moment, has finished a complete launch of its own.
+pub static GATE_AT: std::sync::atomic::AtomicI64 = std::sync::atomic::AtomicI64::new(-1);
+pub static GATE_TID: std::sync::atomic::AtomicU32 = std::sync::atomic::AtomicU32::new(0);
+pub static GATE_COUNT: std::sync::atomic::AtomicI64 = std::sync::atomic::AtomicI64::new(0);
+pub static GATE_GO: std::sync::atomic::AtomicBool = std::sync::atomic::AtomicBool::new(false);
+pub static GATE_BDONE: std::sync::atomic::AtomicBool = std::sync::atomic::AtomicBool::new(false);
+
+pub fn gate() {
+    unsafe {
+        if IN_CHILD != 0 {
+            return;
+        }
+    }
+    let at = GATE_AT.load(Ordering::SeqCst);
+    if at < 0 || gettid() != GATE_TID.load(Ordering::SeqCst) {
+        return;
+    }
+    let c = GATE_COUNT.fetch_add(1, Ordering::SeqCst);
+    if c == at {
+        rec(K_MARK, 2, at, 0, 0, 0, b"switch");
+        GATE_GO.store(true, Ordering::SeqCst);
+        while !GATE_BDONE.load(Ordering::SeqCst) {
+            unsafe { libc::usleep(100) };
+        }
+        rec(K_MARK, 3, at, 0, 0, 0, b"resume");
+    }
+}
+
 // ------------------------------------------------------------------ fault plan
 #[derive(Clone, Copy)]
 pub struct Fault {
@@ -202,16 +232,17 @@ unsafe fn cstr_bytes<'a>(p: *const c_char) -> &'a [u8] {
     std::slice::from_raw_parts(p as *const u8, n)
 }
 
-unsafe fn h_pipe(fds: *mut c_int) -> Option<c_int> {
+unsafe fn h_pipe(fds: *mut c_int, flags: c_int) -> Option<c_int> {
     if !RECORDING {
         return None;
     }
+    gate();
     if let Some(e) = fault_check(K_PIPE) {
         rec(K_PIPE, -1, -1, 0, -1, e, b"");
         crate::raw::set_errno(e);
         return Some(-1);
     }
-    let r = crate::raw::pipe2(fds, 0);
+    let r = crate::raw::pipe2(fds, flags);
     let en = errno_of(r as i64);
     let mut ino: i64 = 0;
     if r == 0 {
@@ -220,7 +251,7 @@ unsafe fn h_pipe(fds: *mut c_int) -> Option<c_int> {
             ino = st.st_ino as i64;
         }
     }
-    rec(K_PIPE, *fds as i64, *fds.add(1) as i64, ino, r as i64, en, b"");
+    rec(K_PIPE, *fds as i64, *fds.add(1) as i64, ino, r as i64, en, if flags & libc::O_CLOEXEC != 0 { b"cx" } else { b"" });
     crate::raw::set_errno(en);
     Some(r)
 }
@@ -228,6 +259,7 @@ unsafe fn h_fcntl(fd: c_int, cmd: c_int, arg: c_long) -> Option<c_int> {
     if !RECORDING {
         return None;
     }
+    gate();
     if let Some(e) = fault_check(K_FCNTL) {
         rec(K_FCNTL, fd as i64, cmd as i64, arg as i64, -1, e, b"");
         crate::raw::set_errno(e);
@@ -243,6 +275,7 @@ unsafe fn h_dup2(a: c_int, b: c_int) -> Option<c_int> {
     if !RECORDING {
         return None;
     }
+    gate();
     if let Some(e) = fault_check(K_DUP2) {
         rec(K_DUP2, a as i64, b as i64, 0, -1, e, b"");
         crate::raw::set_errno(e);
@@ -258,6 +291,7 @@ unsafe fn h_close(fd: c_int) -> Option<c_int> {
     if !RECORDING {
         return None;
     }
+    gate();
     let r = crate::raw::close(fd);
     let en = errno_of(r as i64);
     rec(K_CLOSE, fd as i64, 0, 0, r as i64, en, b"");
@@ -291,6 +325,7 @@ unsafe fn h_fork_pre() -> Option<c_int> {
     if !RECORDING {
         return None;
     }
+    gate();
     if let Some(e) = fault_check(K_FORK) {
         rec(K_FORK, 0, 0, 0, -1, e, b"");
         crate::raw::set_errno(e);
